@@ -10,7 +10,7 @@ use axum::{
     routing::{get, get_service, post},
     Json, Router,
 };
-use easy_error::{ensure, Error};
+use easy_error::{ensure, Error, ResultExt};
 use futures::StreamExt;
 use prometheus::{
     register_histogram_vec, register_int_counter_vec, Encoder, HistogramVec, IntCounterVec,
@@ -68,6 +68,7 @@ fn default_history_size() -> usize {
 
 impl MetricsServer {
     pub fn init(&mut self) -> Result<(), Error> {
+        HeaderValue::from_str(&self.cors).context("invalid cors header value")?;
         if let Some(ui) = &self.ui {
             #[cfg(feature = "embedded-ui")]
             if ui == "<embedded>" {
@@ -80,6 +81,7 @@ impl MetricsServer {
     }
 
     pub async fn listen(self: Arc<Self>, state: Arc<GlobalState>) -> Result<(), Error> {
+        let cors = HeaderValue::from_str(&self.cors).context("invalid cors header value")?;
         let api = Router::new()
             .route("/status", get(get_status))
             .route("/live", get(get_alive))
@@ -97,7 +99,7 @@ impl MetricsServer {
             .nest(&self.api_prefix, api)
             .layer(SetResponseHeaderLayer::if_not_present(
                 ACCESS_CONTROL_ALLOW_ORIGIN,
-                HeaderValue::from_str(&self.cors).unwrap(),
+                cors,
             ))
             .layer(SetResponseHeaderLayer::if_not_present(
                 CACHE_CONTROL,
